@@ -1,7 +1,7 @@
 (* GenGlobals.v - GENERATED from /repo by /verif/translator; do not edit.
-   source cssutils/parse.py sha1 f5d204e6ad8d
-   source cssutils/prodparser.py sha1 7762840bb4e4
-   source cssutils/stylesheets/mediaquery.py sha1 ee6f0a4d30d1
+   source cssutils/parse.py sha1 ebf8d99056d2
+   source cssutils/prodparser.py sha1 1b0e269feb32
+   source cssutils/stylesheets/mediaquery.py sha1 acbfe5b0c319
 *)
 From Coq Require Import List NArith ZArith Bool.
 From CssV Require Import Base.Regex Base.Tokens.
